@@ -303,7 +303,9 @@ def special(ctx, home):
             d = same_relative_text(base)
             if order == "ba":
                 mp = os.path.join(d, "_package.yml")
-                open(mp, "w").write(open(mp).read().replace("  - ../left/a\n  - ../right/b\n", "  - ../right/b\n  - ../left/a\n"))
+                text = open(mp).read().replace("  - ../left/a\n  - ../right/b\n", "  - ../right/b\n  - ../left/a\n")
+                with open(mp, "w") as f:
+                    f.write(text)
             return d
         p = case("same-relative-import-text-" + order, build, 0, "rejected-valid-graph:same-relative-text",
                  "two packages in different parent directories both import '../common' (two different directories): a valid graph")
